@@ -345,6 +345,23 @@ def reverse_typemap(unit):
     return rev
 
 
+def exists_at_baseline(file, name):
+    """does `fn name` occur in `file` at the baseline commit of /repo (properties_cfg.baseline_commit)? None = cannot tell"""
+    try:
+        base = load_cfg().get("baseline_commit")
+        if not base:
+            return None
+        rc, o, e = sh(["git", "-C", REPO, "show", f"{base}:{file}"])
+        if rc != 0:
+            return None
+        return re.search(r"\bfn\s+" + re.escape(name) + r"\b", o) is not None
+    except Exception:
+        return None
+
+
+NEW_CALLEES = {}
+
+
 def auto_stub_text(res, unit=None):
     """From rustc's 'no method named X found for T' diagnostics, build contract-free stubs whose signatures are copied
     from the crate (DESIGN 2.1 'stub closure'): a function under contract that starts calling something new is then
@@ -363,6 +380,8 @@ def auto_stub_text(res, unit=None):
             hits = [h for h in hits if h[1] == "-"] or hits
             if len(hits) >= 1 and (ty, name) not in seen:
                 seen.add((ty, name))
+                if exists_at_baseline(hits[0][0], name) is False:
+                    NEW_CALLEES.setdefault(unit, set()).add(name)
                 pieces.append(f"impl {ty} {{\n    #[verifier::external_body]\n    //@fn {hits[0][0]} {src_ty}::{name} sigonly\n    //@end\n}}")
             continue
         m = MISSING_FN.search(msg)
@@ -372,6 +391,8 @@ def auto_stub_text(res, unit=None):
             hits = [l.split("\t") for l in o.splitlines() if l.strip()]
             if len(hits) == 1 and ("", name) not in seen:
                 seen.add(("", name))
+                if exists_at_baseline(hits[0][0], name) is False:
+                    NEW_CALLEES.setdefault(unit, set()).add(name)
                 pieces.append(f"#[verifier::external_body]\n//@fn {hits[0][0]} ::{name} sigonly\n//@end")
             continue
         m = MISSING_TYPE.search(msg)
@@ -460,6 +481,21 @@ def run_unit_inner(unit, tier, seed):
         res = run_verus(out, ("--rlimit", "100"), logdir)
         r["cmds"].append(res["cmd"])
         viol, undec = classify(unit, vxlog, gen_lines, res)
+    # a function under contract that now calls a function which did not exist at the baseline commit (extract-method
+    # refactor, or new behaviour): it was verified against a callee about which nothing is known, so a failing obligation
+    # there decides nothing -> undecided, not a violation
+    newc = NEW_CALLEES.get(unit, set())
+    if newc and viol:
+        keep = []
+        for v in viol:
+            f_ = next((f for f in vxlog["functions"] if f["fn"] == v["fn"] and not f.get("sigonly")), None)
+            body = "\n".join(gen_lines[int(f_["out_start"]) - 1:int(f_["out_end"])]) if f_ and f_.get("out_start") else ""
+            used = [n for n in newc if re.search(r"\b" + re.escape(n) + r"\s*\(", body)]
+            if used:
+                undec.append({"unit": unit, "reason": "obligation failed in a function that calls code which did not exist at the baseline commit (no contract to verify against)", "id": v["id"], "new_callees": used})
+            else:
+                keep.append(v)
+        viol = keep
     fb = breakdown(res)
     counts = air_counts(logdir)
     subprocess.run(["rm", "-rf", logdir])
